@@ -75,7 +75,12 @@ def witness(rng, lock_info) -> bytes:
         elif r < 0.4:
             h = rng.choice(lock_info.get('handles', [0]) + [0, 1])
             body = rng.choice((O('TRUE'), O('RETURN'), b'', O('TRUE') + O('RETURN'),
-                               O('POP0') + O('TRUE'), O('FALSE') + O('VERIFY')))
+                               O('POP0') + O('TRUE'), O('FALSE') + O('VERIFY'),
+                               O('TRUE') + O('POP0'), O('TRUE') + O('TRUE')))
+            n_ = lock_info.get('own_body_len')
+            if n_ is not None and rng.random() < 0.6:
+                # same byte length as the function the lock defines itself
+                body = (O('TRUE') + O('POP0') * n_)[:n_] if n_ else b''
             parts.append(isa.DEF(h, body))
         elif r < 0.55:
             k = rng.choice(lock_info.get('keys', [b'k']) +
@@ -129,7 +134,7 @@ def lock(rng):
             pre.append(O('TRUE') + isa.IF(O('TRUE') + isa.IF(b'')))
     tail = []
     t = rng.choice(('eqv', 'verify', 'fail', 'call', 'readcache', 'plain',
-                    'two', 'eqv'))
+                    'two', 'eqv', 'owndef', 'owndef'))
     if t == 'eqv':
         v = rbytes(rng, rng.choice((1, 2, 20)))
         info['wants'].append(v)
@@ -143,6 +148,15 @@ def lock(rng):
         h = rng.choice((0, 1))
         info['handles'].append(h)
         tail.append(isa.CALL(h))
+    elif t == 'owndef':
+        # the lock defines its own function and calls it: whatever an
+        # earlier script defined under that handle must not matter
+        h = rng.choice((0, 1, 2))
+        body = rng.choice((O('TRUE') + O('VERIFY'), O('FALSE') + O('VERIFY'),
+                           O('TRUE') + O('POP0'), O('DEPTH') + O('POP0')))
+        info['handles'].append(h)
+        info['own_body_len'] = len(body)
+        tail.append(isa.DEF(h, body) + isa.CALL(h))
     elif t == 'readcache':
         k = rng.choice((b'k', b'q'))
         info['keys'].append(k)
